@@ -1131,6 +1131,71 @@ def _values_job(dialect):
     return (dialect, "ok", res[0].detail)
 
 
+TEXT_OPTION_SETS = [(), (("random_seed", 7),), (("generate_models", False),), (("random_seed", 0), ("generate_models", False)),
+                    (("solver_options", {":timeout": 1000}),), (("solver_options", {":seed": 3, "smt.arith.solver": 2}), ("random_seed", 11)),
+                    (("incremental", False),)]
+
+
+def _text_options_job(options):
+    """SmtLibSolver created with each option the base class accepts, against a solver process that - like z3 - says nothing
+    until :print-success is switched on: the constructor returns, every option reaches the process, and the solver works."""
+    shape = Shape(("lit", True, BOOL))
+    INT = ("INT",)
+    opts = dict(options)
+
+    def call(w, it, f0):
+        it.apply_decorators = {"pysmt.decorators.clear_pending_pop"}
+        logic = it.module_global(w.repo.modules["pysmt.logics"], "QF_LIA")
+        sim = SimSolver(["sat"] * 4, {"x": 1})
+        w.sim = sim
+        problems = []
+        try:
+            solver = it.instantiate(ClassRef(SMTLIB_SOLVER), [["sim"], w.env, logic], dict(opts))
+        except AbsRaise as ex:
+            return ["the constructor raises %s%s%s" % (ex.cls_name, proc._args(ex), " (a reply was awaited that no command causes: the solver "
+                    "process is silent until :print-success is set)" if sim.eof_reads else "")]
+        if sim.eof_reads:
+            problems.append("a reply was awaited that no command causes (the solver process is silent until :print-success is set)")
+        sent = [c_ for c_ in sim.commands if c_.startswith("(set-option")]
+        want = ["(set-option :produce-models %s)" % ("true" if opts.get("generate_models", True) else "false")]
+        if opts.get("random_seed") is not None:
+            want.append("(set-option :random-seed %d)" % opts["random_seed"])
+        for k_, v_ in sorted(opts.get("solver_options", {}).items()):
+            want.append("(set-option %s %s)" % (k_, v_))
+        for c_ in want:
+            if c_ not in sent:
+                problems.append("the option command %s never reaches the solver process (sent: %s)" % (c_, "; ".join(sent)))
+        x = w.symbol("x", INT)
+        try:
+            it.call(it.getattr(solver, "add_assertion"), [w.app("LT", x, w.int_const(3))])
+            r = it.call(it.getattr(solver, "solve"), [])
+            if r is not True:
+                problems.append("solve returns %r for the answer sat" % (r,))
+            if opts.get("generate_models", True):
+                v = it.call(it.getattr(solver, "get_value"), [x])
+                if not (w.is_node(v) and w.npayload(v) == 1):
+                    problems.append("get_value(x) gives %r, the solver reported 1" % (w.npayload(v) if w.is_node(v) else v,))
+        except AbsRaise as ex:
+            problems.append("after construction: %s%s" % (ex.cls_name, proc._args(ex)))
+        if sim.out.strip():
+            problems.append("the reply %r was never read" % sim.out[:60])
+        if sim.illegal:
+            problems.append("illegal command stream: %s" % sim.illegal[0])
+        return problems
+
+    def post(w, f, val, facts):
+        return proc.ProcResult(shape, "valid", val)
+    res = proc.run_proc(shape, call, post=post, services="full", max_paths=4, world_cls=SolverWorld,
+                        interp_kwargs={"max_steps": 20000000, "max_loop": 200000})
+    if len(res) != 1 or res[0].kind != "valid":
+        return (_optstr(opts) or "defaults", "unsupported", "%s %s" % (res[0].kind, str(res[0].detail)[:200]))
+    return (_optstr(opts) or "defaults", "ok", res[0].detail)
+
+
+def text_options_results(repo):
+    return [_text_options_job(o) for o in TEXT_OPTION_SETS]
+
+
 def text_value_results(repo):
     return [_values_job(d) for d in ("z3", "cvc5", "indexed", None)]
 
